@@ -505,7 +505,8 @@ func (g *gen) fill(s *Spec) {
 		s.Subpaths = nil
 		used := map[string]bool{}
 		for i := 0; i < n; i++ {
-			p := vh.Pick(r, []string{"/a", "/a/x", "/a/b", "/a/b/c", "/b", "=/a", "~ ^/a", "/"})
+			// incl. exact / regex paths that merely START like the paths VirtualServer routes use
+			p := vh.Pick(r, []string{"/a", "/a/x", "/a/b", "/a/b/c", "/b", "=/a", "~ ^/a", "/", "=/a-x", "~ ^/a/b", "=/a", "~ ^/a"})
 			if used[p] {
 				continue
 			}
@@ -710,7 +711,11 @@ func (g *gen) compositionSeed() []Event {
 		}
 		put(Spec{Kind: "vs", NS: "ns1", Name: "a", ClassField: nginx, Host: h, Routes: routes})
 		put(Spec{Kind: "vsr", NS: "ns1", Name: "b", ClassField: nginx, Host: h, Subpaths: []string{sub}})
-		put(Spec{Kind: "vsr", NS: "a-b", Name: "c", ClassField: nginx, Host: vh.Pick(r, []string{h, h, hosts[0]}), Subpaths: []string{routes[1][0]}})
+		sub2 := routes[1][0]
+		if r.Chance(1, 4) {
+			sub2 += "-x" // "=/a-x" under "=/a", "~ ^/a-x" under "~ ^/a", "/b-x" under "/b": only a prefix route admits it
+		}
+		put(Spec{Kind: "vsr", NS: "a-b", Name: "c", ClassField: nginx, Host: vh.Pick(r, []string{h, h, hosts[0]}), Subpaths: []string{sub2}})
 	}
 	// random order of the seed events: the composition must not depend on it
 	for i := len(out) - 1; i > 0; i-- {
